@@ -306,7 +306,15 @@ mk_block(filerec_t *f, int n)
     b->next   = NULL;
     b->prev   = NULL;
     b->dirty  = 0;
-    b->ddlist = malloc((size_t)n * sizeof(dd_t));
+    /* exactly n descriptors (so that any access to ddlist[n] is out of bounds), allocated with a
+       constant size per case: symbolic-size arrays of structs blow the SAT instance up */
+    switch (n) {
+        case 1: b->ddlist = malloc(1 * sizeof(dd_t)); break;
+        case 2: b->ddlist = malloc(2 * sizeof(dd_t)); break;
+        case 3: b->ddlist = malloc(3 * sizeof(dd_t)); break;
+        case 4: b->ddlist = malloc(4 * sizeof(dd_t)); break;
+        default: H4V_ASSUME(n == 5); b->ddlist = malloc(5 * sizeof(dd_t)); break;
+    }
     H4V_ASSUME(b->ddlist != NULL);
     for (int i = 0; i < H4V_MAXNDDS; i++)
         if (i < n) {
